@@ -6,7 +6,7 @@ from hypothesis import strategies as st
 
 from vlib import gen_dartops as D
 from vlib import gen_tsl as T
-from vlib.ctx import PassTimeout, parse, run_pass, time_limit, to_text
+from vlib.ctx import parse, run_pass, to_text
 from vlib.runner import Info, Outside, Reject, Sub, Violation
 
 ID = "C09"
@@ -45,9 +45,42 @@ MAX_ELEMS = 70000
 
 
 # ------------------------------------------------------------------------------------------------
+# CPU-time guard (local variant of vlib.ctx.time_limit: counts this process' CPU time, so machine load cannot make a
+# terminating pass look hung; raises a BaseException so that xDSL's `except Exception` around patterns - which would print
+# the whole, possibly huge, module into the error note - does not intercept it). A hit is a Reject, never a violation.
+
+
+class _Hang(BaseException):
+    pass
+
+
+class cpu_limit:
+    def __init__(self, seconds: float):
+        self.seconds = seconds
+
+    def __enter__(self):
+        import signal
+
+        def handler(signum, frame):
+            raise _Hang()
+
+        self._old = signal.signal(signal.SIGVTALRM, handler)
+        signal.setitimer(signal.ITIMER_VIRTUAL, self.seconds)
+        return self
+
+    def __exit__(self, *exc):
+        import signal
+
+        signal.setitimer(signal.ITIMER_VIRTUAL, 0)
+        signal.signal(signal.SIGVTALRM, self._old)
+        return False
+
+
+# ------------------------------------------------------------------------------------------------
 # observation of the padding function (class labels and oracle (iii) only)
 
 _PAD_LOG: list = []
+_TIMEOUTS = [0]
 _WRAPPED = [False]
 
 
@@ -138,6 +171,9 @@ def _find(mod, name):
     return [op for op in mod.walk() if op.name == name]
 
 
+GENERIC_COVERAGE = "coverage:tile-bounds-product-differs-from-shape"
+
+
 def _coverage_signature(tiled, A, b, bounds, d, size, got):
     """Narrow signatures for the reproduced defects; anything else is the generic one."""
     if got < size and all(A[d][j] == 0 for j in range(len(bounds))):
@@ -147,7 +183,7 @@ def _coverage_signature(tiled, A, b, bounds, d, size, got):
             return "coverage:dim-shares-iteration-dim-with-earlier-operand-dim"
     if tiled and got < size and not projected_visited(A[d], b[d], bounds, size).all():
         return "coverage:tiled:dim-not-fully-accessed-by-schedule"
-    return "coverage:tile-bounds-product-differs-from-shape"
+    return GENERIC_COVERAGE
 
 
 def check(recipe, want_explicit=False):
@@ -172,11 +208,11 @@ def check(recipe, want_explicit=False):
 
     if r["form"] == "operation":
         try:
-            with time_limit(20):
+            with cpu_limit(10):
                 run_pass(mod, "dart-scheduler", ctx=ctx)
             mod.verify()
-        except PassTimeout:
-            raise Reject("dart-scheduler: no result within 20 s")
+        except _Hang:
+            raise Reject("dart-scheduler: no result within 10 s of CPU time")
         except StopIteration:
             raise Reject("dart-scheduler: no schedule found (StopIteration)")
         except Exception as e:  # not this property's subject (C03/C16); the scheduler produced nothing
@@ -189,11 +225,16 @@ def check(recipe, want_explicit=False):
     before = to_text(mod)
 
     del _PAD_LOG[:]
+    if _TIMEOUTS[0] >= 3:
+        # the pass needs milliseconds of CPU; a tree in which it hung three times in this process is not asked again, so that
+        # a non-terminating pass is reported through the non-trivial floor within minutes
+        raise Reject("set-memory-layout: skipped after three hangs in this process")
     try:
-        with time_limit(20):
+        with cpu_limit(3):
             run_pass(mod, "set-memory-layout", ctx=ctx, tiled=tiled)
-    except PassTimeout:
-        raise Reject("set-memory-layout: no result within 20 s")
+    except _Hang:
+        _TIMEOUTS[0] += 1
+        raise Reject("set-memory-layout: no result within 3 s of CPU time")
     except (NotImplementedError, RuntimeError, AssertionError) as e:
         raise Reject(f"set-memory-layout: {type(e).__name__}: {str(e)[:60]}")
     except Exception as e:  # recorded, not a statement about a chosen layout (DESIGN 3.5)
@@ -271,9 +312,9 @@ def check(recipe, want_explicit=False):
             if short:
                 # is the aliasing only due to indices beyond the tile bounds (a consequence of a coverage defect)?
                 inside = full[tuple(slice(0, min(g, s)) for g, s in zip(got, shape))].reshape(-1)
-                if len(np.unique(inside)) == len(inside):
-                    causes = sorted({_coverage_signature(tiled, A, b, bounds, d, shape[d], got[d]) for d in short})
-                    sig = "injectivity:index-beyond-tile-bounds:" + causes[0].split(":", 1)[1]
+                causes = {_coverage_signature(tiled, A, b, bounds, d, shape[d], got[d]) for d in short}
+                if len(np.unique(inside)) == len(inside) and GENERIC_COVERAGE not in causes:
+                    sig = "injectivity:index-beyond-tile-bounds"
             found.append((sig, dict(det, address=dup, indices=idxs)))
         nonrow = nonrow or not is_row_major(L, shape)
         padded = padded or is_padded(L)
@@ -373,14 +414,14 @@ def sweep(tier):
 
 
 SUBS = [
-    Sub("scheduled", lambda tier: scheduled_case(tier), prop, budget=dict(quick=1600, thorough=24000),
+    Sub("scheduled", lambda tier: scheduled_case(tier), prop, budget=dict(quick=1200, thorough=24000),
         floor=dict(quick=150, thorough=2500),
         nontrivial_rule="the real dart-scheduler produced a schedule, set-memory-layout inserted casts and some chosen layout is "
                         "not plain row-major or granularity padding changed a stride"),
-    Sub("direct", lambda tier: direct_case(tier), prop, budget=dict(quick=2400, thorough=40000),
+    Sub("direct", lambda tier: direct_case(tier), prop, budget=dict(quick=1800, thorough=40000),
         floor=dict(quick=300, thorough=5000),
         nontrivial_rule="set-memory-layout inserted casts and some chosen layout is not plain row-major or padding changed a stride"),
-    Sub("explicit", lambda tier: explicit_case(tier), prop, budget=dict(quick=600, thorough=8000),
+    Sub("explicit", lambda tier: explicit_case(tier), prop, budget=dict(quick=480, thorough=8000),
         floor=dict(quick=100, thorough=1500),
         nontrivial_rule="at least one operand carries a #tsl.tsl layout (one / some / all operands)"),
     Sub("sweep", None, prop, budget=dict(quick=0, thorough=0), exhaustive=sweep, exhaustive_only=True,
